@@ -94,18 +94,28 @@ func ZZ_C07_R1() {
 	govp := ctrlertypes.Test1GovParams()
 	// a short signing window so that downtime jailing is within reach
 	ctrlertypes.ZZSetSigning(govp, zzverif.NondetI64In("gov.signedBlocksWindow", 1, 3), zzverif.NondetI64In("gov.minSignedBlocks", 1, 3))
+	// all ratio parameters distinct (symbolic) so that a mix-up between fields shows
+	ctrlertypes.ZZSetRatios(govp, zzverif.NondetI64In("gov.minSelfStakeRatio", 1, 100), zzverif.NondetI64In("gov.maxUpdatableStakeRatio", 1, 100), zzverif.NondetI64In("gov.maxIndividualStakeRatio", 1, 100))
 	a := zzNewGenesis(3, 2, govp).start()
 	a.emptyBlock(0)
 	a.emptyBlock(0)
 	a1Signed := zzverif.Choose("a1.signs", 2) == 1
 	m3, m4 := zzNondetMenuTx("tx3"), zzNondetMenuTx("tx4")
 	o3 := a.menuBlock(m3, a1Signed)
+	if zzverif.Thorough() && zzverif.Choose("restart.later", 2) == 1 {
+		// thorough tier: one more block before the restart
+		o3 = a.menuBlock(zzNondetMenuTx("tx3b"), a1Signed)
+	}
 	// ---- restart: a new process on a copy of the data directory
 	b := &zzNode{dir: zzverif.CopyDir(a.dir), gov: govp, nvals: 2, height: a.height}
 	b.app = zzOpenApp(b.dir)
 	info := b.app.Info(abcitypes.RequestInfo{})
 	zzverif.Assert(info.LastBlockHeight == a.height, "R1 restarted node reports the height of the last commit")
 	zzverif.Assert(zzverif.SameBytes(info.LastBlockAppHash, o3.hash), "R1 restarted node reports the application hash of the last commit")
+	// "all in-memory state that influences execution is reconstructible": the
+	// governance parameters rebuilt by the constructors equal the running node's
+	pa, pb := a.app.govCtrler.GetGovParams(), b.app.govCtrler.GetGovParams()
+	ctrlertypes.ZZGovParamsAssertEq(&pa, &pb, "R1 governance parameters after restart")
 	oa4, ob4 := a.menuBlock(m4, a1Signed), b.menuBlock(m4, a1Signed)
 	// known finding C07-K1: lastValidators is not rebuilt on start, so the first
 	// block after a restart re-announces the whole validator set
